@@ -1091,7 +1091,18 @@ class Interp:
                 return FlatV(outer.rows, outer.cols)
             return Unknown("nested comp")
         if len(n.generators) != 1:
-            return Unknown("comp")
+            # several generators: every one is an iteration of its own (recorded, targets bound), the element evaluated once; the value of the
+            # whole is not modelled
+            e2 = env.fork()
+            for g in n.generators:
+                it = self.ev(g.iter, e2)
+                self.record_iter(kind + "comp", n, g.iter, it, env)
+                lid = next(self.loop_ids)
+                self.assign(g.target, self.iter_elem(it, lid, e2, n), e2, n)
+                for c in g.ifs:
+                    self.ev(c, e2)
+            self.ev(n.elt, e2)
+            return Unknown("comp over several generators")
         g = n.generators[0]
         e2 = env.fork()
         it = self.ev(g.iter, e2)
